@@ -2437,7 +2437,8 @@ def strip_sites(e):
     if e and e[0] == 'callind':
         return ('callind', strip_sites(e[1]), tuple(strip_sites(a) for a in e[2]))
     if e and e[0] == 'phi':
-        return ('phi', tuple(strip_sites(a) for a in e[2]))
+        alts = e[2] if len(e) > 2 else e[1]      # idempotent: an already stripped phi is ('phi', alternatives)
+        return ('phi', tuple(strip_sites(a) for a in alts))
     if e and e[0] == 'local':
         return ('local', e[2] if len(e) > 2 and e[2] else e[1])
     return tuple(strip_sites(x) for x in e)
